@@ -58,7 +58,7 @@ pub fn option_sets(all: bool) -> Vec<(String, SerializerOptions)> {
         }
     }
     // indentation steps other than 2 and 4
-    for (name, step, compact) in [("i1", 1usize, false), ("i3", 3, false), ("i3c", 3, true), ("i1c", 1, true)] {
+    for (name, step, compact) in [("i1", 1usize, false), ("i3", 3, false), ("i3c", 3, true), ("i1c", 1, true), ("i8", 8, false), ("i8c", 8, true)] {
         v.push((name.to_string(), SerializerOptions { indent_step: step, compact_list_indent: compact, ..d }));
     }
     v
@@ -130,8 +130,20 @@ fn rand_value(rng: &mut Rng, depth: usize, key: bool) -> SValue {
                     // (integer keys far away from the string keys "1", "true", ...: an integer key 1 and a
                     // string key "1" are the same YAML key node and cannot live in one mapping)
                     0 => SValue::leaf("I", &(i + 101).to_string()),
-                    1 if depth > 1 => SValue::new("Seq", "", vec![SValue::leaf("I", &(i + 1).to_string())]),
-                    2 if depth > 1 => SValue::new("Struct", "", vec![SValue::leaf("I", &(i + 1).to_string())]),
+                    // composite keys of one to three elements (sequence, tuple, tuple struct), now and then nested
+                    1 if depth > 1 => {
+                        let n = 1 + rng.below(3);
+                        let mut items: Vec<SValue> = (0..n).map(|j| if j == 1 { SValue::leaf("S", "x") } else { SValue::leaf("I", &(i + 1 + 10 * j).to_string()) }).collect();
+                        if rng.chance(1, 5) {
+                            items[0] = SValue::new("Seq", "", vec![SValue::leaf("I", &(i + 1).to_string()), SValue::leaf("I", "2")]);
+                        }
+                        let kind = if n == 1 { "Seq" } else { *rng.pick(&["Seq", "Tup", "TS"]) };
+                        SValue::new(kind, "", items)
+                    }
+                    2 if depth > 1 => {
+                        let n = 1 + rng.below(2);
+                        SValue::new("Struct", "", (0..n).map(|j| SValue::leaf("I", &(i + 1 + 10 * j).to_string())).collect())
+                    }
                     _ => SValue::leaf("S", keys[i]),
                 };
                 xs.push(k);
@@ -256,6 +268,31 @@ pub fn run(args: &Args) -> i32 {
                     k += 1;
                 }
             }
+        }
+    }
+    // deep chains of random constructors (indentation of 32 - 160 columns), with a sibling after the deep part
+    {
+        let n = if args.num("random", 0) > 20000 { 400 } else { 40 };
+        for i in 0..n {
+            let depth = 4 + rng.below(17);
+            let mut v = if rng.chance(1, 2) { SValue::leaf("S", "x") } else { SValue::new("Seq", "", vec![SValue::leaf("I", "1"), SValue::leaf("I", "2")]) };
+            for _ in 0..depth {
+                let sib = || SValue::leaf("I", "1");
+                v = match rng.below(7) {
+                    0 => SValue::new("Map", "", vec![SValue::leaf("S", "k"), v, SValue::leaf("S", "m"), sib()]),
+                    1 => SValue::new("Seq", "", vec![v, sib()]),
+                    2 => SValue::new("Struct", "", vec![v, sib()]),
+                    3 => SValue::new("NV", "", vec![v]),
+                    4 => SValue::new("SV", "", vec![v]),
+                    5 => SValue::new("TV", "", vec![sib(), v]),
+                    _ => SValue::new("Some", "", vec![v]),
+                };
+            }
+            if decor {
+                let mut b = 1 + rng.below(2);
+                v = decorate(&v, &mut rng, &mut b);
+            }
+            handle(format!("d{i}"), &v, None, &mut w, &mut stats, &mut rng);
         }
     }
     let nrand = args.num("random", 0);
